@@ -68,6 +68,24 @@ func (i *Index) Search(key types.Key) (BlockHandle, bool) {
 	return BlockHandle{}, false
 }
 
+// SearchLowerBound data block that holds the first entry greater than or equal to key:
+// the first block whose EndKey is not less than key
+func (i *Index) SearchLowerBound(key types.Key) (BlockHandle, bool) {
+	low, high := 0, len(i.Entries)
+	for low < high {
+		mid := low + ((high - low) >> 1)
+		if types.CompareKeys(i.Entries[mid].EndKey, key) < 0 {
+			low = mid + 1
+		} else {
+			high = mid
+		}
+	}
+	if low == len(i.Entries) {
+		return BlockHandle{}, false
+	}
+	return i.Entries[low].DataHandle, true
+}
+
 func (i *Index) Scan(start, end types.Key) []BlockHandle {
 	var res []BlockHandle
 	for _, entry := range i.Entries {
